@@ -182,6 +182,7 @@ theorem accCompute_sharp (ns : Nat) (k : AccKind) (hk : k.fresh = true) (w : PW)
   | reqSum => simp [accCompute, mkItem, cellsOf]
   | count name => simp [accCompute, mkItem, cellsOf]
   | histogram => simp [accCompute, mkItem, cellsOf]
+  | numpyHist => simp [accCompute, mkItem, cellsOf]
   | sib var lo hi => simp [accCompute, mkItem, cellsOf]
   | vectorize dim =>
     simp only [accCompute, maybeWithContext, M.bind_run, M.pure_run, copyM_run, readM_run]
